@@ -98,6 +98,11 @@ Proof. exact fq_sub_spec. Qed.
 Theorem C10_fiat_fr_sub : forall a b, limbs_ok 8 a -> limbs_ok 8 b -> ev a < r -> ev b < r ->
   limbs_ok 8 (fr_sub a b) /\ ev (fr_sub a b) = (ev a - ev b) mod r.
 Proof. exact fr_sub_spec. Qed.
+(* Negation (Fq, Fr): (- a) mod m for all in-range limb values; in particular the negation of zero is the canonical zero. *)
+Theorem C10_fiat_fq_opp : forall a, limbs_ok 8 a -> ev a < q -> limbs_ok 8 (fq_opp a) /\ ev (fq_opp a) = (- ev a) mod q.
+Proof. exact fq_opp_spec. Qed.
+Theorem C10_fiat_fr_opp : forall a, limbs_ok 8 a -> ev a < r -> limbs_ok 8 (fr_opp a) /\ ev (fr_opp a) = (- ev a) mod r.
+Proof. exact fr_opp_spec. Qed.
 (* the hypotheses are satisfiable and the wrap-around case is exercised: (q - 1) + 2 = 1 *)
 Example C10_fiat_fq_add_run :
   let a := [0; 168919040; 3489660929; 1504343806; 1547153409; 1622428958; 2586617174; 313222494] in
